@@ -722,6 +722,7 @@ func (w *cwWorld) build() (*cwStep, error) {
 	if rc.Chance(30) {
 		want = common.REGION_CTX
 	}
+	n.wantShare = rc.Chance(30)
 	blk, err := n.nextBlock(want)
 	if err != nil {
 		return nil, err
